@@ -1,3 +1,4 @@
 INIT GenInit
 NEXT GenNext
 INVARIANT EmitCase
+CONSTANT HandsOverSendersMessage = FALSE
